@@ -319,14 +319,16 @@ type c09Env struct {
 }
 
 type c09Live struct {
-	e     *c09Env
-	root  string // contains store/ and the staging directories
-	s     *Store
-	m     c09Model
-	ops   []c09Op
-	nrec  int
-	vio   bool // a violation was recorded in this state (do not expand)
-	fault bool // harness fault
+	e    *c09Env
+	root string // contains store/ and the staging directories
+	s    *Store
+	m    c09Model
+	ops  []c09Op
+	nrec int
+	// countOutcome: this crash successor is being evaluated (not replayed as a prefix)
+	countOutcome bool
+	vio          bool // a violation was recorded in this state (do not expand)
+	fault        bool // harness fault
 }
 
 func (e *c09Env) newRoot() string {
@@ -904,9 +906,11 @@ func (l *c09Live) crashInto(img vfs.Image, pre c09Model, op c09Op) bool {
 	}
 	m.Tmp = 0
 	l.m = m
-	l.e.mu.Lock()
-	l.e.outcomes[fmt.Sprintf("%s: installed=%v flag %v->%v", kind, installed, pre.FullNeeded, flag)]++
-	l.e.mu.Unlock()
+	if l.countOutcome {
+		l.e.mu.Lock()
+		l.e.outcomes[fmt.Sprintf("%s: installed=%v flag %v->%v", kind, installed, pre.FullNeeded, flag)]++
+		l.e.mu.Unlock()
+	}
 	return true
 }
 
@@ -1037,7 +1041,7 @@ func TestVerif_C09(t *testing.T) {
 						}
 						post := l.m.clone()
 						for i, im := range imgs {
-							cl := &c09Live{e: e, root: e.newRoot(), m: post.clone(), ops: append([]c09Op(nil), preOps...)}
+							cl := &c09Live{e: e, root: e.newRoot(), m: post.clone(), ops: append([]c09Op(nil), preOps...), countOutcome: true}
 							cop := c09Op{Kind: "crash:" + j.op, Img: i + 1, Label: im.Label}
 							r.Eval(1)
 							r.Transition(1)
